@@ -108,7 +108,7 @@ def decode_op(weights):
         if name in ('delete', 'delete_now', 'bad_delete'):
             return [name, d[0]]
         if name == 'arm':
-            return ['arm', d[0], d[1] % 4, d[2], d[3]]      # action 3: the callback raises
+            return ['arm', d[0], (0, 1, 2, 3, 3, 3, 3, 0)[d[1] % 8], d[2], d[3]]      # action 3: the callback raises
         if name == 'revive':
             return ['revive', d[0], d[1]]
         return [name]
@@ -562,6 +562,12 @@ class Run:
             comp.__dict__.pop('_react', None)
             self.flags['reattach_instance'] += 1
         else:
+            row = self.attached.get(e, {})
+            if 'deletion' in self.checks and cix % 2 and len(row) == 1 and self.is_pending(e):
+                # an entity awaiting deletion that holds ONE component gets that component replaced (same exact type):
+                # the replacement must not bring the entity back to life
+                cix = self.classes.index(next(iter(row)))
+                self.flags['sole_component_of_a_pending_entity_replaced'] += 1
             comp = self.new_comp(cix)
         if arm:
             self.arm_general([comp], arm)
@@ -715,6 +721,13 @@ class Run:
                  if self.maps(c, 'on_remove') and self.is_pending(e) and '_react' not in c.__dict__]
         if not cands or comp_sel >= 12:
             cands = [c for row in self.attached.values() for c in row.values() if self.maps(c, 'on_remove')]
+        if action == 3:
+            # a callback that raises is most telling where the sweep still has work to do for the same entity: prefer a
+            # component that is not the last one of an entity awaiting deletion
+            better = [c for e, row in self.attached.items() if self.is_pending(e) and len(row) >= 2
+                      for c in list(row.values())[:-1] if self.maps(c, 'on_remove') and '_react' not in c.__dict__]
+            if better:
+                cands = better
         if not cands:
             return self.noop()
         comp = cands[comp_sel % len(cands)]
